@@ -363,7 +363,8 @@ class Case:
         from lbry.blob.blob_manager import BlobManager
         from lbry.extras.daemon.storage import SQLiteStorage
         from lbry.blob.disk_space_manager import DiskSpaceManager
-        self.conf = Config(data_dir=self.d, wallet_dir=self.d, download_dir=os.path.join(self.d, 'dl'))
+        self.conf = Config(data_dir=self.d, wallet_dir=self.d, download_dir=os.path.join(self.d, 'dl'),
+                           track_bandwidth=False)      # its 0.1 s timer is irrelevant here and would flood the periods
         self.st = SQLiteStorage(self.conf, ':memory:', loop=self.loop)
         await self.st.open()
         streams, net = plan(self.case)
@@ -372,7 +373,54 @@ class Case:
         await self.add_network(net)
         self.bm = BlobManager(self.loop, self.bd, self.st, self.conf)
         await self.bm.setup()
+        if self.case.get('hist'):
+            await self.bookkeeping_history(self.case['hist'])
         self.dsm = DiskSpaceManager(self.conf, self.st, self.bm)
+
+    async def restart_manager(self):
+        """A new start of the blob manager on the same storage (the rows survive, the objects do not)."""
+        from lbry.blob.blob_manager import BlobManager
+        self.bm.stop()
+        self.bm = BlobManager(self.loop, self.bd, self.st, self.conf)
+        await self.bm.setup()
+
+    async def bookkeeping_history(self, kind):
+        """Things that happen to recorded blobs between the publish / download and the cleanup, all through the real
+        BlobManager / storage paths.  None of them changes who a blob belongs to: the ledger keeps the ownership
+        recorded first."""
+        victims = [b for b in self.blobs if b.finished and b.stream in ('own', 'dlf0')]
+        if kind == 'lost-restored':
+            # a start with the blob directory empty (unmounted), then a start with the files back
+            side = os.path.join(self.d, 'side')
+            os.mkdir(side)
+            for b in victims:
+                os.rename(os.path.join(self.bd, b.h), os.path.join(side, b.h))
+            await self.restart_manager()
+            for b in victims:
+                os.rename(os.path.join(side, b.h), os.path.join(self.bd, b.h))
+            os.rmdir(side)
+            await self.restart_manager()
+        elif kind == 'recomplete':
+            # a blob that is already there is fetched / verified again and reported through blob_completed
+            for b in victims:
+                blob = self.bm.get_blob(b.h, b.size)
+                await self.bm.blob_completed(blob)
+        elif kind == 'readd-other':
+            # add_blobs is called again for known blobs, with the other ownership flag
+            await self.st.add_blobs(*[(b.h, b.size, b.age, not b.own) for b in victims], finished=True)
+        elif kind == 'deleted-restored':
+            # removed through the API keeping the rows, a start, the files restored behind the back, a start
+            await self.bm.delete_blobs([b.h for b in victims], delete_from_db=False)
+            await self.restart_manager()
+            for b in victims:
+                with open(os.path.join(self.bd, b.h), 'wb') as f:
+                    f.truncate(b.size)
+            await self.restart_manager()
+        else:
+            raise ValueError(kind)
+        on_disk = set(os.listdir(self.bd))
+        if any(b.h not in on_disk for b in victims):
+            raise RuntimeError('harness: a bookkeeping history lost a file')
 
     def observe(self):
         rows = {r[0] for r in self.st.db.writer_connection.execute("select blob_hash from blob").fetchall()}
@@ -412,6 +460,11 @@ def run_case(case, res, log=None):
             record.append(('network' if is_network_blob else 'content', before, cs.observe(), ret))
             return ret
         cs.dsm._clean = observed_clean
+        entry = case.get('entry', 'clean')
+        if entry == 'loop':
+            loop.run(cs.dsm.start())
+            if not cs.dsm.running:
+                raise RuntimeError('harness: start() did not start the cleaning loop')
         for pass_no in (1, 2, 3):
             if pass_no == 3:
                 # a new download and a new network blob arrive between the passes
@@ -437,7 +490,16 @@ def run_case(case, res, log=None):
                 res.witness('both_classes_over_their_limit_in_one_clean')
             error = None
             try:
-                loop.run(cs.dsm.clean())
+                if entry == 'loop':
+                    # the periodic entry point: one period of the loop start() created; the status query the
+                    # daemon component answers from the cached figure happens in between
+                    loop.run(cs.dsm.get_space_used_mb(cached=True))
+                    loop.advance(cs.dsm.cleaning_interval)
+                    if cs.dsm.task.done() and not cs.dsm.task.cancelled() and cs.dsm.task.exception():
+                        raise cs.dsm.task.exception()
+                    res.witness('period_of_the_cleaning_loop')
+                else:
+                    loop.run(cs.dsm.clean())
             except Exception as e:   # noqa - a refusal; what it left behind is judged like any other outcome
                 error = type(e).__name__
                 res.tally(f'clean_raised_{error}')
@@ -464,6 +526,10 @@ def run_case(case, res, log=None):
                 network = which == 'network'
                 res.count('passes')
                 ctx = {'pass_no': pass_no}
+                if entry != 'clean':
+                    ctx['entry'] = entry
+                if case.get('hist'):
+                    ctx['after_history'] = case['hist']
                 if ret is None and which not in ran:
                     ctx['half_pass'] = 'did-not-run'
                 if rows1 - before_rows or files1 - before_files:
@@ -501,6 +567,10 @@ def run_case(case, res, log=None):
                 if over_before:
                     nontrivial = nontrivial or pass_no <= 2
                     res.witness('over_limit_pass')
+                    if case.get('hist') and not network and any(b.own for b in model.blobs.values()):
+                        res.witness('content_pass_over_limit_after_a_bookkeeping_history_on_own_blobs')
+                    if entry == 'loop' and network and limits['content'] == 0 and limits['network'] == 0:
+                        res.witness('periodic_network_pass_over_limit_with_both_limits_zero')
                     if not deleted:
                         res.witness('over_limit_but_nothing_removable')
                 else:
@@ -523,6 +593,15 @@ def run_case(case, res, log=None):
                 elif over:
                     res.tally('interpretation_only:over_limit_after_pass_only_unremovable_blobs_left')
                 findings.extend(fs)
+        if entry == 'loop':
+            # stop(): no further pass (observed; the statement is silent about a stopped service)
+            loop.run(cs.dsm.stop())
+            del record[:]
+            loop.advance(cs.dsm.cleaning_interval)
+            if record or cs.dsm.running:
+                res.tally('interpretation_only:pass_ran_after_stop')
+            else:
+                res.witness('no_pass_after_stop')
         if nontrivial:
             res.distinct_add('nontrivial', case_key(case))
         return findings
@@ -559,7 +638,9 @@ def _pend_key(case):
 
 def case_key(case):
     return (tuple(case['own']), tuple(case['dlf']), tuple(case['dln']), tuple(case['net']), case.get('split', 1),
-            _pend_key(case) + ((('first',),) if case.get('pend_first') else ()), tuple(case.get('extra') or ()),
+            _pend_key(case) + ((('first',),) if case.get('pend_first') else ()),
+            tuple(case.get('extra') or ()) + ((case['hist'],) if case.get('hist') else ()) +
+            ((('entry', case['entry']),) if case.get('entry') else ()),
             tuple(case['lc']), tuple(case['ln']))
 
 
@@ -567,6 +648,7 @@ def case_key(case):
 # enumeration
 
 LIMIT_SPECS = [('abs', 0), ('rel', -2), ('rel', -1), ('rel', 0), ('rel', 1), ('x10',)]
+HISTORIES = ['lost-restored', 'recomplete', 'readd-other', 'deleted-restored']
 
 
 def seqs(max_len, names=SIZE_NAMES):
@@ -599,8 +681,12 @@ def enumerate_cases(quick):
                    ([], ['1.5', '1.5'], ['2.0'], ('x10',))]
     cases = []
 
-    def add(own, dln, dlf, net, lc, ln, split=1, pend=None, extra=None, pend_first=False):
+    def add(own, dln, dlf, net, lc, ln, split=1, pend=None, extra=None, pend_first=False, hist=None, entry=None):
         c = {'own': own, 'dln': dln, 'dlf': dlf, 'net': net, 'split': split, 'lc': lc, 'ln': ln}
+        if hist:
+            c['hist'] = hist
+        if entry:
+            c['entry'] = entry
         if pend:
             c['pend'] = {k: v for k, v in pend.items() if v}
             if pend_first:
@@ -656,6 +742,21 @@ def enumerate_cases(quick):
                 for lc in LIMIT_SPECS:
                     for net, ln in net_red[:3]:
                         add(own, [], dlf, net, lc, ln, extra=[x])
+    # F: the periodic entry point (start() -> cleaning_loop, three periods, stop()): reduced mixes x all 36 limit pairs
+    for own in ([], ['2.0']):
+        for dln in ([], ['1.0']) if not quick else ([],):
+            for dlf in small:
+                for net in small + ([['1.5', '1.5']] if not quick else []):
+                    for lc in LIMIT_SPECS:
+                        for ln in LIMIT_SPECS:
+                            add(own, dln, dlf, net, lc, ln, entry='loop')
+    # G: ownership survives bookkeeping histories (own and downloaded blobs go through re-verification paths first)
+    for hist in HISTORIES:
+        for own in (['1.5'], ['1.0', '2.0']):
+            for dlf in seqs(1 if quick else 2):
+                for lc in LIMIT_SPECS:
+                    for net, ln in (([], ('abs', 0)), (['1.5'], ('rel', 0))):
+                        add(own, [], dlf, net, lc, ln, hist=hist)
     seen, out = set(), []
     for c in cases:
         lim = case_limits(c)
@@ -668,7 +769,8 @@ def enumerate_cases(quick):
             out.append(c)
     # simplest first: fewest blobs
     out.sort(key=lambda c: (len(c['own']) + len(c['dln']) + len(c['dlf']) + len(c['net']) +
-                            sum(len(v) for v in (c.get('pend') or {}).values()) + 2 * len(c.get('extra') or ()),))
+                            sum(len(v) for v in (c.get('pend') or {}).values()) + 2 * len(c.get('extra') or ()) +
+                            (3 if c.get('hist') else 0) + (1 if c.get('entry') else 0),))
     return out
 
 
@@ -696,6 +798,10 @@ def fmt_case(c):
         s += f"pending{'(oldest)' if c.get('pend_first') else ''}={c['pend']} "
     if c.get('extra'):
         s += f"extra={c['extra']} "
+    if c.get('hist'):
+        s += f"history-before-cleanup={c['hist']} "
+    if c.get('entry'):
+        s += f"entry={c['entry']} "
     return s + (f"blob_storage_limit={lim['content']} ({fmt_l(c['lc'])}) "
                 f"network_storage_limit={lim['network']} ({fmt_l(c['ln'])})")
 
@@ -716,6 +822,8 @@ def run(ctx):
     n = 2 if ctx.quick else 3
     ctx.res.count('cases_with_pending_rows', sum(1 for c in cases if c.get('pend')))
     ctx.res.count('cases_with_odd_streams', sum(1 for c in cases if c.get('extra')))
+    ctx.res.count('cases_through_the_periodic_entry_point', sum(1 for c in cases if c.get('entry')))
+    ctx.res.count('cases_with_a_bookkeeping_history', sum(1 for c in cases if c.get('hist')))
     ctx.meta.update(
         rule=('cases = (A) every age-ordered size sequence of 0..n downloaded-with-file blobs x own-stream and '
               'fileless-stream alphabets x 6 content limits x a reduced network side (over / at / within its limit); '
@@ -724,7 +832,12 @@ def run(ctx):
               '0..2 finished blobs x pending (listed, never fetched, no file) blobs in the downloaded, own, '
               'fileless and network classes x 6 content limits x network sides; (E) odd streams: descriptor only, '
               'is_mine on the descriptor only, is_mine on the data only, a blob shared by two streams (tallied '
-              'only); sizes {0.4,1.0,1.5,2.0} MiB, distinct ages, limits {0, used-2, used-1, used, used+1, 10*used} '
+              'only); (F) the periodic entry point: start() -> cleaning_loop on the virtual loop, three periods of '
+              'the configured interval with the component\'s cached status query in between, then stop(), for '
+              'reduced mixes x all 36 limit pairs incl. (0,0); (G) bookkeeping histories on the own and downloaded '
+              'blobs before the cleanup (start with the files missing then restored, re-completion through '
+              'blob_completed, add_blobs again with the other is_mine value, delete_blobs keeping rows + restart + '
+              'files restored + restart): ownership stays what was recorded first; sizes {0.4,1.0,1.5,2.0} MiB, distinct ages, limits {0, used-2, used-1, used, used+1, 10*used} '
               'relative to the REAL usage (negative ones dropped). Each case runs clean(), clean() again, then a '
               'new download + a new network blob and clean() a third time; deletions are attributed to the content / '
               'network half of each clean(), a half that does not run is judged as an empty half. Non-trivial = a '
@@ -752,7 +865,10 @@ def run(ctx):
                             'content_pass_within_nonzero_limit_with_removable_blobs',
                             'both_classes_over_their_limit_in_one_clean',
                             'pass_exactly_at_its_limit_after_an_earlier_pass',
-                            'within_limit_pass_with_pending_rows_present'],
+                            'within_limit_pass_with_pending_rows_present',
+                            'period_of_the_cleaning_loop', 'no_pass_after_stop',
+                            'periodic_network_pass_over_limit_with_both_limits_zero',
+                            'content_pass_over_limit_after_a_bookkeeping_history_on_own_blobs'],
     )
 
 
